@@ -9,7 +9,7 @@
 From Coq Require Import List Arith Bool ZArith NArith Lia.
 From Crux Require Import Base.Res Bridge.Slab Bridge.SlabProofs Bridge.Bridge Bridge.BridgeProofs Bridge.RegistryProofs
                          Bridge.ReleaseProofs Bridge.Resolve Bridge.ResolveProofs Bridge.HeapReleaseProofs
-                         Bridge.Timer Bridge.TimerProofs Bridge.Twin Bridge.Release.
+                         Bridge.Timer Bridge.TimerProofs Bridge.Twin Bridge.Release Bridge.LiveBoundProofs.
 Import ListNotations.
 Close Scope N_scope.
 Open Scope nat_scope.
@@ -150,6 +150,14 @@ Theorem C13_live_tasks_bounded_partial : forall h c ch',
                 q_owner q = ch_owner ch'.
 Proof. exact live_after_poll_has_outstanding_request. Qed.
 
+(* The same bound in numbers - this is the clause of C13_ok evaluated on the implementation's drop counters,
+   proved here of the model: once the tasks have run, live consumers <= requests that can still be resolved
+   + legacy consumers that can never finish (the known class; 0 for the command API). *)
+Theorem C13_live_tasks_count_bound : forall h, Inv h -> TxInv h -> h_aborted h = false ->
+  let h' := fst (step h APoll) in
+  live_count h' <= outstanding h' + legacy_stuck h'.
+Proof. exact live_bound_after_poll. Qed.
+
 (* Refutation 3 (class legacy_task_kept_after_unresolvable_request): a legacy-capability task whose request the
    shell dropped is still alive after the tasks have run, and no request can ever wake it. *)
 Theorem C13_legacy_task_refuted :
@@ -172,7 +180,7 @@ Proof. intros acts first t. apply cleared_bound. apply trun_TInv. apply TInv_ini
 
 (* Refutation 4 (class cleared_timer_id_kept_for_ever): set a timer, let it fire, clear it. *)
 Theorem C13_cleared_set_refuted : ~ C13_cleared_set_full_statement.
-Proof. intros H. specialize (H [TSet; TRespond 1; TClear 1] 1). vm_compute in H. lia. Qed.
+Proof. intros H. specialize (H [TSet; TRespond 1%N; TClear 1%N] 1%N). vm_compute in H. lia. Qed.
 
 (* non-vacuity of the partial theorems: a run in which one-shots are registered, answered and released *)
 Example C13_nonvacuous : nonvacuous_run = true /\
